@@ -3006,16 +3006,11 @@ func (db *DB) Import(ctx context.Context, r io.Reader) error {
 		return err
 	}
 
-	// Invalidate journal, if one exists.
-	if err := db.invalidateJournal(JournalModePersist); err != nil {
-		return fmt.Errorf("invalidate journal: %w", err)
-	}
-
-	// Truncate WAL, if it exists.
-	if _, err := db.os.Stat("IMPORT:WAL", db.WALPath()); err == nil {
-		if err := db.TruncateWAL(ctx, 0); err != nil {
-			return fmt.Errorf("truncate wal: %w", err)
-		}
+	// Roll back a hot journal and checkpoint the WAL so that the database file
+	// alone holds the committed image. If a later step fails before the new
+	// image is written, the database is still what it was.
+	if err := db.recover(ctx); err != nil {
+		return fmt.Errorf("recover: %w", err)
 	}
 
 	return db.ApplyLTXNoLock(db.LTXPath(pos.TXID, pos.TXID), true)
